@@ -27,18 +27,19 @@ Proc == Prod \cup Cons
 VARIABLES qt, qh, sl,                       \* queue: claimed pushes, claimed pops, slot state / value
           idler, pending, wtrs, spending,   \* idler, pending, send_waiters, send_pending
           cnt, sq,                          \* semaphores "q" (queue_sem) and "s" (send_sem): count, FIFO of sleepers
-          pc, done, cur, pnd, slow, val,    \* per process: control, calls completed, locals cur_* / p, slow path flag, value held
+          pc, done, cur, pnd, slow, val, si, \* per process: control, calls completed, locals cur_* / p, slow path flag, value held, slot index
           sent, rcvd                        \* ghost: values whose send returned / values returned by recv
-vars == <<qt, qh, sl, idler, pending, wtrs, spending, cnt, sq, pc, done, cur, pnd, slow, val, sent, rcvd>>
-Free == [st |-> "free", v |-> 0]
+vars == <<qt, qh, sl, idler, pending, wtrs, spending, cnt, sq, pc, done, cur, pnd, slow, val, si, sent, rcvd>>
+NoVal == <<0, 0>>
+Free == [st |-> "free", v |-> NoVal]
 Init == /\ qt = 0 /\ qh = 0 /\ sl = [i \in 0..Cap-1 |-> Free]
         /\ idler = 0 /\ pending = 0 /\ wtrs = 0 /\ spending = 0
         /\ cnt = [s \in {"q", "s"} |-> 0] /\ sq = [s \in {"q", "s"} |-> <<>>]
         /\ pc = [x \in Proc |-> "idle"] /\ done = [x \in Proc |-> 0] /\ cur = [x \in Proc |-> 0] /\ pnd = [x \in Proc |-> 0]
-        /\ slow = [x \in Proc |-> FALSE] /\ val = [x \in Proc |-> 0]
+        /\ slow = [x \in Proc |-> FALSE] /\ val = [x \in Proc |-> NoVal] /\ si = [x \in Proc |-> 0]
         /\ sent = {} /\ rcvd = {}
 Goto(x, s) == pc' = [pc EXCEPT ![x] = s]
-ValOf(p) == p * 10 + done[p] + 1
+ValOf(p) == <<p, done[p] + 1>>
 \* ---- queue primitives (shared by the channel actions)
 CanClaimPush == sl[qt % Cap].st = "free"
 IsFull == qt - qh = Cap
@@ -62,120 +63,121 @@ Decide(x, p, c, fresh, cas) == Goto(x, IF p >= c THEN fresh ELSE cas)
 S_Push1(p) == /\ pc[p] = "idle" /\ p \in Prod /\ done[p] < NSend
               /\ IF CanClaimPush /\ ~IsFull
                  THEN /\ qt' = qt + 1
-                      /\ val' = [val EXCEPT ![p] = ValOf(p) + (IF TwoStep THEN 1000 * (qt % Cap) ELSE 0)]
-                      /\ sl' = [sl EXCEPT ![qt % Cap] = IF TwoStep THEN [st |-> "writing", v |-> 0] ELSE [st |-> "full", v |-> ValOf(p)]]
+                      /\ val' = [val EXCEPT ![p] = ValOf(p)] /\ si' = [si EXCEPT ![p] = qt % Cap]
+                      /\ sl' = [sl EXCEPT ![qt % Cap] = IF TwoStep THEN [st |-> "writing", v |-> NoVal] ELSE [st |-> "full", v |-> ValOf(p)]]
                       /\ Goto(p, IF TwoStep THEN "s_pub" ELSE "s_ldidler") /\ UNCHANGED <<wtrs, slow>>
                  ELSE /\ IsFull /\ PhotonSend                    \* push() returned false (ThreadPause: poll again later)
                       /\ IF Bug = "late_waiters" THEN UNCHANGED <<wtrs, slow>>
                          ELSE wtrs' = wtrs + 1 /\ slow' = [slow EXCEPT ![p] = TRUE]       \* send_waiters.fetch_add(1)
-                      /\ Goto(p, "b_push") /\ UNCHANGED <<qt, sl, val>>
+                      /\ Goto(p, "b_push") /\ UNCHANGED <<qt, sl, val, si>>
               /\ UNCHANGED <<qh, idler, pending, spending, cnt, sq, done, cur, pnd, sent, rcvd>>
 S_Pub(p) == /\ pc[p] = "s_pub"
-            /\ sl' = [sl EXCEPT ![(val[p] \div 1000)] = [st |-> "full", v |-> val[p] % 1000]]
-            /\ val' = [val EXCEPT ![p] = @ % 1000]
+            /\ sl' = [sl EXCEPT ![si[p]] = [st |-> "full", v |-> val[p]]]
             /\ Goto(p, IF slow[p] THEN "b_dec" ELSE "s_ldidler")
-            /\ UNCHANGED <<qt, qh, idler, pending, wtrs, spending, cnt, sq, done, cur, pnd, slow, sent, rcvd>>
+            /\ UNCHANGED <<qt, qh, idler, pending, wtrs, spending, cnt, sq, done, cur, pnd, slow, val, si, sent, rcvd>>
 \* backoff loop: while (!push_fn(x)) { ... send_sem.wait ... }
 B_Push(p) == /\ pc[p] = "b_push"
              /\ IF CanClaimPush /\ ~IsFull
                 THEN /\ qt' = qt + 1
-                     /\ sl' = [sl EXCEPT ![qt % Cap] = IF TwoStep THEN [st |-> "writing", v |-> 0] ELSE [st |-> "full", v |-> ValOf(p)]]
-                     /\ val' = [val EXCEPT ![p] = ValOf(p) + (IF TwoStep THEN 1000 * (qt % Cap) ELSE 0)]
+                     /\ sl' = [sl EXCEPT ![qt % Cap] = IF TwoStep THEN [st |-> "writing", v |-> NoVal] ELSE [st |-> "full", v |-> ValOf(p)]]
+                     /\ val' = [val EXCEPT ![p] = ValOf(p)] /\ si' = [si EXCEPT ![p] = qt % Cap]
                      /\ Goto(p, IF TwoStep THEN "s_pub" ELSE IF slow[p] THEN "b_dec" ELSE "s_ldidler") /\ UNCHANGED <<wtrs, cnt, sq>>
-                ELSE /\ IsFull
-                     /\ IF Bug = "late_waiters" /\ ~slow[p] THEN Goto(p, "b_inclate") /\ UNCHANGED <<cnt, sq>>
-                        ELSE IF cnt["s"] > 0 THEN SemTake("s") /\ Goto(p, "b_decp") /\ UNCHANGED sq      \* send_sem.wait: r == 0
-                        ELSE SemSleep("s", p) /\ Goto(p, "b_sleep") /\ UNCHANGED cnt
-                     /\ UNCHANGED <<qt, sl, val, wtrs>>
+                ELSE /\ IsFull /\ Goto(p, IF Bug = "late_waiters" /\ ~slow[p] THEN "b_inclate" ELSE "b_wait")
+                     /\ UNCHANGED <<qt, sl, val, si, wtrs, cnt, sq>>
              /\ UNCHANGED <<qh, idler, pending, spending, done, cur, pnd, slow, sent, rcvd>>
+\* int r = send_sem.wait(1, 100ms): take a token (r == 0) or sleep
+B_Wait(p) == /\ pc[p] = "b_wait"
+             /\ IF cnt["s"] > 0 THEN SemTake("s") /\ Goto(p, "b_decp") /\ UNCHANGED sq
+                ELSE SemSleep("s", p) /\ Goto(p, "b_sleep") /\ UNCHANGED cnt
+             /\ UNCHANGED <<qt, qh, sl, idler, pending, wtrs, spending, done, cur, pnd, slow, val, si, sent, rcvd>>
 \* broken variant only: register as waiter after the re-check push failed
 B_IncLate(p) == /\ pc[p] = "b_inclate"
                 /\ wtrs' = wtrs + 1 /\ slow' = [slow EXCEPT ![p] = TRUE]
                 /\ IF cnt["s"] > 0 THEN SemTake("s") /\ Goto(p, "b_decp") /\ UNCHANGED sq
                    ELSE SemSleep("s", p) /\ Goto(p, "b_sleep") /\ UNCHANGED cnt
-                /\ UNCHANGED <<qt, qh, sl, idler, pending, spending, done, cur, pnd, val, sent, rcvd>>
+                /\ UNCHANGED <<qt, qh, sl, idler, pending, spending, done, cur, pnd, val, sent, rcvd, si>>
 B_DecP(p) == /\ pc[p] = "b_decp" /\ spending' = spending - 1 /\ Goto(p, "b_push")
-             /\ UNCHANGED <<qt, qh, sl, idler, pending, wtrs, cnt, sq, done, cur, pnd, slow, val, sent, rcvd>>
+             /\ UNCHANGED <<qt, qh, sl, idler, pending, wtrs, cnt, sq, done, cur, pnd, slow, val, sent, rcvd, si>>
 B_Timeout(p) == /\ Timed /\ pc[p] = "b_sleep" /\ sq' = [sq EXCEPT !["s"] = Remove(@, p)] /\ Goto(p, "b_push")
-                /\ UNCHANGED <<qt, qh, sl, idler, pending, wtrs, spending, cnt, done, cur, pnd, slow, val, sent, rcvd>>
+                /\ UNCHANGED <<qt, qh, sl, idler, pending, wtrs, spending, cnt, done, cur, pnd, slow, val, sent, rcvd, si>>
 B_Dec(p) == /\ pc[p] = "b_dec" /\ wtrs' = wtrs - 1 /\ slow' = [slow EXCEPT ![p] = FALSE] /\ Goto(p, "s_ldidler")
-            /\ UNCHANGED <<qt, qh, sl, idler, pending, spending, cnt, sq, done, cur, pnd, val, sent, rcvd>>
+            /\ UNCHANGED <<qt, qh, sl, idler, pending, spending, cnt, sq, done, cur, pnd, val, sent, rcvd, si>>
 \* fence; cur_idler = idler.load(); if (cur_idler == 0) return;
-SendRet(p) == /\ done' = [done EXCEPT ![p] = @ + 1] /\ sent' = sent \cup {val[p]} /\ val' = [val EXCEPT ![p] = 0]
+SendRet(p) == /\ done' = [done EXCEPT ![p] = @ + 1] /\ sent' = sent \cup {val[p]} /\ val' = [val EXCEPT ![p] = NoVal]
 S_LdIdler(p) == /\ pc[p] = "s_ldidler"
                 /\ IF idler = 0 THEN SendRet(p) /\ Goto(p, "idle") /\ UNCHANGED cur
                    ELSE cur' = [cur EXCEPT ![p] = idler] /\ Goto(p, "s_ldp") /\ UNCHANGED <<done, sent, val>>
-                /\ UNCHANGED <<qt, qh, sl, idler, pending, wtrs, spending, cnt, sq, pnd, slow, rcvd>>
+                /\ UNCHANGED <<qt, qh, sl, idler, pending, wtrs, spending, cnt, sq, pnd, slow, rcvd, si>>
 S_LdP(p) == /\ pc[p] = "s_ldp" /\ pnd' = [pnd EXCEPT ![p] = pending] /\ Decide(p, pending, cur[p], "s_fresh", "s_cas")
-            /\ UNCHANGED <<qt, qh, sl, idler, pending, wtrs, spending, cnt, sq, done, cur, slow, val, sent, rcvd>>
+            /\ UNCHANGED <<qt, qh, sl, idler, pending, wtrs, spending, cnt, sq, done, cur, slow, val, sent, rcvd, si>>
 S_Fresh(p) == /\ pc[p] = "s_fresh"
               /\ IF idler <= cur[p] THEN SendRet(p) /\ Goto(p, "idle") /\ UNCHANGED cur
                  ELSE cur' = [cur EXCEPT ![p] = idler] /\ Decide(p, pnd[p], idler, "s_fresh", "s_cas") /\ UNCHANGED <<done, sent, val>>
-              /\ UNCHANGED <<qt, qh, sl, idler, pending, wtrs, spending, cnt, sq, pnd, slow, rcvd>>
+              /\ UNCHANGED <<qt, qh, sl, idler, pending, wtrs, spending, cnt, sq, pnd, slow, rcvd, si>>
 S_Cas(p) == /\ pc[p] = "s_cas"
             /\ IF pending = pnd[p] THEN pending' = pending + 1 /\ Goto(p, "s_sig") /\ UNCHANGED pnd
                ELSE pnd' = [pnd EXCEPT ![p] = pending] /\ Decide(p, pending, cur[p], "s_fresh", "s_cas") /\ UNCHANGED pending
-            /\ UNCHANGED <<qt, qh, sl, idler, wtrs, spending, cnt, sq, done, cur, slow, val, sent, rcvd>>
+            /\ UNCHANGED <<qt, qh, sl, idler, wtrs, spending, cnt, sq, done, cur, slow, val, sent, rcvd, si>>
 S_Sig(p) == /\ pc[p] = "s_sig" /\ Signal("q", p, "idle", "r_wait") /\ SendRet(p)
-            /\ UNCHANGED <<qt, qh, sl, idler, pending, wtrs, spending, cur, pnd, slow, rcvd>>
+            /\ UNCHANGED <<qt, qh, sl, idler, pending, wtrs, spending, cur, pnd, slow, rcvd, si>>
 
 (* ============================================================ recv ============================================================ *)
 PopClaim(c) == /\ qh' = qh + 1
-               /\ sl' = [sl EXCEPT ![qh % Cap] = IF TwoStep THEN [st |-> "reading", v |-> 0] ELSE Free]
-               /\ val' = [val EXCEPT ![c] = sl[qh % Cap].v + (IF TwoStep THEN 1000 * (qh % Cap) ELSE 0)]
+               /\ sl' = [sl EXCEPT ![qh % Cap] = IF TwoStep THEN [st |-> "reading", v |-> NoVal] ELSE Free]
+               /\ val' = [val EXCEPT ![c] = sl[qh % Cap].v] /\ si' = [si EXCEPT ![c] = qh % Cap]
 R_Pop1(c) == /\ pc[c] = "idle" /\ c \in Cons /\ done[c] < NRecv
              /\ IF CanClaimPop THEN PopClaim(c) /\ Goto(c, IF TwoStep THEN "r_rel" ELSE "n_ldw")
-                ELSE IsEmpty /\ Goto(c, IF Bug = "late_idler" THEN "r_pop2" ELSE "r_inc") /\ UNCHANGED <<qh, sl, val>>
+                ELSE IsEmpty /\ Goto(c, IF Bug = "late_idler" THEN "r_pop2" ELSE "r_inc") /\ UNCHANGED <<qh, sl, val, si>>
              /\ slow' = [slow EXCEPT ![c] = FALSE]
              /\ UNCHANGED <<qt, idler, pending, wtrs, spending, cnt, sq, done, cur, pnd, sent, rcvd>>
-R_Rel(c) == /\ pc[c] = "r_rel" /\ sl' = [sl EXCEPT ![val[c] \div 1000] = Free] /\ val' = [val EXCEPT ![c] = @ % 1000]
+R_Rel(c) == /\ pc[c] = "r_rel" /\ sl' = [sl EXCEPT ![si[c]] = Free]
             /\ Goto(c, "n_ldw")
-            /\ UNCHANGED <<qt, qh, idler, pending, wtrs, spending, cnt, sq, done, cur, pnd, slow, sent, rcvd>>
+            /\ UNCHANGED <<qt, qh, idler, pending, wtrs, spending, cnt, sq, done, cur, pnd, slow, val, si, sent, rcvd>>
 \* thread_yield(); idler.fetch_add(1)
 R_Inc(c) == /\ pc[c] = "r_inc" /\ idler' = idler + 1 /\ slow' = [slow EXCEPT ![c] = TRUE]
             /\ Goto(c, IF Bug = "late_idler" THEN "r_wait" ELSE "r_pop2")
-            /\ UNCHANGED <<qt, qh, sl, pending, wtrs, spending, cnt, sq, done, cur, pnd, val, sent, rcvd>>
+            /\ UNCHANGED <<qt, qh, sl, pending, wtrs, spending, cnt, sq, done, cur, pnd, val, sent, rcvd, si>>
 \* while (!pop(x)) { yield | queue_sem.wait }
 R_Pop2(c) == /\ pc[c] = "r_pop2"
              /\ IF CanClaimPop THEN PopClaim(c) /\ Goto(c, IF TwoStep THEN "r_rel" ELSE "n_ldw")
-                ELSE IsEmpty /\ Goto(c, IF Bug = "late_idler" /\ ~slow[c] THEN "r_inc" ELSE "r_wait") /\ UNCHANGED <<qh, sl, val>>
+                ELSE IsEmpty /\ Goto(c, IF Bug = "late_idler" /\ ~slow[c] THEN "r_inc" ELSE "r_wait") /\ UNCHANGED <<qh, sl, val, si>>
              /\ UNCHANGED <<qt, idler, pending, wtrs, spending, cnt, sq, done, cur, pnd, slow, sent, rcvd>>
 R_Wait(c) == /\ pc[c] = "r_wait"
              /\ IF cnt["q"] > 0 THEN SemTake("q") /\ Goto(c, "r_decp") /\ UNCHANGED sq
                 ELSE SemSleep("q", c) /\ Goto(c, "r_sleep") /\ UNCHANGED cnt
-             /\ UNCHANGED <<qt, qh, sl, idler, pending, wtrs, spending, done, cur, pnd, slow, val, sent, rcvd>>
+             /\ UNCHANGED <<qt, qh, sl, idler, pending, wtrs, spending, done, cur, pnd, slow, val, sent, rcvd, si>>
 R_DecP(c) == /\ pc[c] = "r_decp" /\ pending' = pending - 1 /\ Goto(c, "r_pop2")
-             /\ UNCHANGED <<qt, qh, sl, idler, wtrs, spending, cnt, sq, done, cur, pnd, slow, val, sent, rcvd>>
+             /\ UNCHANGED <<qt, qh, sl, idler, wtrs, spending, cnt, sq, done, cur, pnd, slow, val, sent, rcvd, si>>
 R_Timeout(c) == /\ Timed /\ pc[c] = "r_sleep" /\ sq' = [sq EXCEPT !["q"] = Remove(@, c)] /\ Goto(c, "r_pop2")
-                /\ UNCHANGED <<qt, qh, sl, idler, pending, wtrs, spending, cnt, done, cur, pnd, slow, val, sent, rcvd>>
+                /\ UNCHANGED <<qt, qh, sl, idler, pending, wtrs, spending, cnt, done, cur, pnd, slow, val, sent, rcvd, si>>
 \* notify_senders
-RecvRet(c) == /\ done' = [done EXCEPT ![c] = @ + 1] /\ rcvd' = rcvd \cup {val[c]} /\ val' = [val EXCEPT ![c] = 0]
+RecvRet(c) == /\ done' = [done EXCEPT ![c] = @ + 1] /\ rcvd' = rcvd \cup {val[c]} /\ val' = [val EXCEPT ![c] = NoVal]
 AfterNotify(c) == IF slow[c] THEN Goto(c, "r_dec") /\ UNCHANGED <<done, rcvd, val>> ELSE RecvRet(c) /\ Goto(c, "idle")
 N_LdW(c) == /\ pc[c] = "n_ldw"
             /\ IF wtrs = 0 THEN AfterNotify(c) /\ UNCHANGED cur
                ELSE cur' = [cur EXCEPT ![c] = wtrs] /\ Goto(c, "n_ldsp") /\ UNCHANGED <<done, rcvd, val>>
-            /\ UNCHANGED <<qt, qh, sl, idler, pending, wtrs, spending, cnt, sq, pnd, slow, sent>>
+            /\ UNCHANGED <<qt, qh, sl, idler, pending, wtrs, spending, cnt, sq, pnd, slow, sent, si>>
 N_LdSp(c) == /\ pc[c] = "n_ldsp" /\ pnd' = [pnd EXCEPT ![c] = spending] /\ Decide(c, spending, cur[c], "n_fresh", "n_cas")
-             /\ UNCHANGED <<qt, qh, sl, idler, pending, wtrs, spending, cnt, sq, done, cur, slow, val, sent, rcvd>>
+             /\ UNCHANGED <<qt, qh, sl, idler, pending, wtrs, spending, cnt, sq, done, cur, slow, val, sent, rcvd, si>>
 N_Fresh(c) == /\ pc[c] = "n_fresh"
               /\ IF wtrs <= cur[c] THEN AfterNotify(c) /\ UNCHANGED cur
                  ELSE cur' = [cur EXCEPT ![c] = wtrs] /\ Decide(c, pnd[c], wtrs, "n_fresh", "n_cas") /\ UNCHANGED <<done, rcvd, val>>
-              /\ UNCHANGED <<qt, qh, sl, idler, pending, wtrs, spending, cnt, sq, pnd, slow, sent>>
+              /\ UNCHANGED <<qt, qh, sl, idler, pending, wtrs, spending, cnt, sq, pnd, slow, sent, si>>
 N_Cas(c) == /\ pc[c] = "n_cas"
             /\ IF spending = pnd[c] THEN spending' = spending + 1 /\ Goto(c, "n_sig") /\ UNCHANGED pnd
                ELSE pnd' = [pnd EXCEPT ![c] = spending] /\ Decide(c, spending, cur[c], "n_fresh", "n_cas") /\ UNCHANGED spending
-            /\ UNCHANGED <<qt, qh, sl, idler, pending, wtrs, cnt, sq, done, cur, slow, val, sent, rcvd>>
+            /\ UNCHANGED <<qt, qh, sl, idler, pending, wtrs, cnt, sq, done, cur, slow, val, sent, rcvd, si>>
 N_Sig(c) == /\ pc[c] = "n_sig"
-            /\ IF slow[c] THEN Signal("s", c, "r_dec", "b_push") /\ UNCHANGED <<done, rcvd, val>>
-                          ELSE Signal("s", c, "idle", "b_push") /\ RecvRet(c)
-            /\ UNCHANGED <<qt, qh, sl, idler, pending, wtrs, spending, cur, pnd, slow, sent>>
+            /\ IF slow[c] THEN Signal("s", c, "r_dec", "b_wait") /\ UNCHANGED <<done, rcvd, val>>
+                          ELSE Signal("s", c, "idle", "b_wait") /\ RecvRet(c)
+            /\ UNCHANGED <<qt, qh, sl, idler, pending, wtrs, spending, cur, pnd, slow, sent, si>>
 \* DEFER(idler.fetch_sub(1)); return x
 R_Dec(c) == /\ pc[c] = "r_dec" /\ idler' = idler - 1 /\ slow' = [slow EXCEPT ![c] = FALSE] /\ RecvRet(c) /\ Goto(c, "idle")
-            /\ UNCHANGED <<qt, qh, sl, pending, wtrs, spending, cnt, sq, cur, pnd, sent>>
+            /\ UNCHANGED <<qt, qh, sl, pending, wtrs, spending, cnt, sq, cur, pnd, sent, si>>
 
 AllDone == \A x \in Proc : pc[x] = "idle" /\ done[x] = (IF x \in Prod THEN NSend ELSE NRecv)
 Finished == AllDone /\ UNCHANGED vars
-StepP(p) == S_Push1(p) \/ S_Pub(p) \/ B_Push(p) \/ B_IncLate(p) \/ B_DecP(p) \/ B_Timeout(p) \/ B_Dec(p)
+StepP(p) == S_Push1(p) \/ S_Pub(p) \/ B_Push(p) \/ B_Wait(p) \/ B_IncLate(p) \/ B_DecP(p) \/ B_Timeout(p) \/ B_Dec(p)
             \/ S_LdIdler(p) \/ S_LdP(p) \/ S_Fresh(p) \/ S_Cas(p) \/ S_Sig(p)
 StepC(c) == R_Pop1(c) \/ R_Rel(c) \/ R_Inc(c) \/ R_Pop2(c) \/ R_Wait(c) \/ R_DecP(c) \/ R_Timeout(c)
             \/ N_LdW(c) \/ N_LdSp(c) \/ N_Fresh(c) \/ N_Cas(c) \/ N_Sig(c) \/ R_Dec(c)
@@ -188,7 +190,7 @@ Spec == Init /\ [][Next]_vars
 AsleepC == {c \in Cons : pc[c] = "r_sleep"}
 AsleepP == {p \in Prod : pc[p] = "b_sleep"}
 \* producers that are not between a successful push and the end of send()
-ProdQuiet == \A p \in Prod : pc[p] \in {"idle", "b_push", "b_sleep", "b_decp", "b_inclate"}
+ProdQuiet == \A p \in Prod : pc[p] \in {"idle", "b_push", "b_wait", "b_sleep", "b_decp", "b_inclate"}
 \* consumers that are not between a successful pop and the end of recv()
 ConsQuiet == \A c \in Cons : pc[c] \in {"idle", "r_inc", "r_pop2", "r_wait", "r_sleep", "r_decp"}
 HasItem == qh # qt /\ sl[qh % Cap].st = "full"
@@ -204,7 +206,7 @@ PendingMirrorsCount == /\ pending = cnt["q"] + Cardinality({c \in Cons : pc[c] =
 CountersSane == /\ idler = Cardinality({c \in Cons : slow[c]}) /\ wtrs = Cardinality({p \in Prod : slow[p]})
                 /\ qt - qh \in 0..Cap
 \* every value whose send returned is received once or still in the ring; only sent-or-in-flight values are received
-Ledger == /\ \A v \in rcvd : v # 0
+Ledger == /\ \A v \in rcvd : v # NoVal
           /\ AllDone => sent = rcvd \cup {sl[i].v : i \in {j \in 0..Cap-1 : sl[j].st = "full"}}
 Inv == NotStuckNonEmpty /\ NotStuckNonFull /\ PendingMirrorsCount /\ CountersSane /\ Ledger
 ====
